@@ -115,6 +115,8 @@ impl Family for C11Family {
             s.up = true;
             OpKind::GetAssertion(s)
         };
+        actor.ops.push(plain_op(auth_kind.clone()));
+        // a second use of the same credential (the first one may have rewritten the record)
         actor.ops.push(plain_op(auth_kind));
         c.actors.push(actor);
         Scenario { family: "C11".into(), batch: "cells".into(), seed: master, index, body: Body::Ceremony(c) }
@@ -194,7 +196,7 @@ impl Family for C11Family {
                     }
                 }
                 // the assertion returns a user handle exactly when the credential stores one
-                if let Some(a) = rec.op(0, 1) {
+                for a in [rec.op(0, 1), rec.op(0, 2)].into_iter().flatten() {
                     let handle = match &a.result {
                         OpResult::Auth(Ok(r)) => Some(r.user_handle.clone()),
                         OpResult::Ga(Ok(r)) => Some(r.user_id.clone()),
@@ -204,7 +206,7 @@ impl Family for C11Family {
                         if id == saved.id {
                             stats.probe(if h.is_some() { "assertion_returned_user_handle" } else { "assertion_without_user_handle" });
                             if h.is_some() != saved.user_handle.is_some() {
-                                j.fail("assertion-user-handle", format!("the credential stores user handle {:?} but the assertion returned {:?}", saved.user_handle, h));
+                                j.fail("assertion-user-handle", format!("the credential was stored with user handle {:?} but assertion #{} returned {:?}", saved.user_handle, a.idx, h));
                             }
                         }
                     }
